@@ -29,19 +29,13 @@ func (m *Map[K, V]) ToJSON() ([]byte, error) {
 	index := 0
 
 	for it.Next() {
-		km, err := json.Marshal(it.Key())
+		// encode each member the way encoding/json encodes a map entry, so that keys are
+		// always JSON strings (e.g. integer keys are quoted) and unsupported key types fail
+		member, err := json.Marshal(map[K]V{it.Key(): it.Value()})
 		if err != nil {
 			return nil, err
 		}
-		buf.Write(km)
-
-		buf.WriteRune(':')
-
-		vm, err := json.Marshal(it.Value())
-		if err != nil {
-			return nil, err
-		}
-		buf.Write(vm)
+		buf.Write(member[1 : len(member)-1])
 
 		if index != lastIndex {
 			buf.WriteRune(',')
